@@ -36,6 +36,8 @@ type gen struct {
 	prefix string
 	// noAuto: no AUTO_INCREMENT keys, noUnique: no UNIQUE indexes
 	noUnique bool
+	// noNUL: no NUL bytes in strings (they cannot travel in a PostgreSQL protocol message)
+	noNUL bool
 	// skipFail: kinds of failing statements this front-end does not reject
 	skipFail map[string]bool
 }
@@ -208,9 +210,18 @@ func (g *gen) freshUnique() sqlgen.Value {
 
 func (g *gen) value(c *sqlgen.Column) sqlgen.Value {
 	if c.NotNull {
-		return sqlgen.GenNonNull(g.rt, c)
+		return g.nonNull(c)
 	}
-	return sqlgen.GenValue(g.rt, c)
+	return g.clean(sqlgen.GenValue(g.rt, c))
+}
+
+func (g *gen) nonNull(c *sqlgen.Column) sqlgen.Value { return g.clean(sqlgen.GenNonNull(g.rt, c)) }
+
+func (g *gen) clean(v sqlgen.Value) sqlgen.Value {
+	if g.noNUL && !v.Null && v.T == sqlgen.TVarchar {
+		v.S = strings.ReplaceAll(v.S, "\x00", "n")
+	}
+	return v
 }
 
 // ---- tables a transaction can use
@@ -247,7 +258,7 @@ func (g *gen) literalFor(t *tstate, c *sqlgen.Column) sqlgen.Value {
 			return v
 		}
 	}
-	return sqlgen.GenNonNull(g.rt, c)
+	return g.nonNull(c)
 }
 
 func (g *gen) atom(t *tstate) sqlgen.Expr {
